@@ -244,7 +244,7 @@ func c17Case(c *explore.Ctx, s *explore.SubStats, in c17Input, cn *c17Canon) {
 		return
 	}
 	s.Validated++
-	if len(srcs) == 2 {
+	if len(srcs) == 2 && c17Monotone(in.Perm) {
 		// the order in which the same two source files are passed, one of them flagged built-in
 		// (a flag of the file, not of its place): same loadability, same schema
 		load := func(first, second *ast.Source) (string, error) {
@@ -383,41 +383,14 @@ func part(line, comp string) string {
 
 func runC17(c *explore.Ctx) {
 	k := c.Pick(1, 2)
-	s := c.Sub("permute-split", fmt.Sprintf("every type system = base (3 blocks) + ≤ %d of %d menu items (valid and faulty), (quick: plus every pair of extension items, every extension × described-definition pair and every directive declaration × item using that directive; every two-source layout also in both source orders with either source flagged built-in) under every permutation of its units and every cut of the permuted sequence into 1–3 named sources", k, len(gen.KitMenu)),
+	s := c.Sub("permute-split", fmt.Sprintf("every type system = base (3 blocks) + ≤ %d of %d menu items (valid and faulty), (quick: plus every pair of extension items, every extension × described-definition pair and every directive declaration × item using that directive; every two-source layout of the canonical order and its mirror also in both source orders with either source flagged built-in) under every permutation of its units and every cut of the permuted sequence into 1–3 named sources", k, len(gen.KitMenu)),
 		"loads ⇔ the canonical order loads; the loaded schemas have equal canonical dumps; a load error names a source that holds a definition involved in a broken rule", "orderings that load")
 	if s == nil {
 		return
 	}
 	t0 := time.Now()
 	idx := 0
-	explore.Subsets(len(gen.KitMenu), k, func(items []int) {
-		idx++
-		if idx%c.NShards != c.Shard || !s.Exhaustive {
-			return
-		}
-		if c.Expired() {
-			s.Cap("deadline")
-			return
-		}
-		its := append([]int{}, items...)
-		cn := c17Canonical(its)
-		n := 3 + len(its)
-		s.States++
-		explore.Perms(n, func(p []int) {
-			perm := append([]int{}, p...)
-			// cuts: none, one, two
-			c17Case(c, s, c17Input{its, perm, nil}, cn)
-			s.Transitions++
-			for a := 1; a < n; a++ {
-				c17Case(c, s, c17Input{its, perm, []int{a}}, cn)
-				s.Transitions++
-				for b := a + 1; b < n; b++ {
-					c17Case(c, s, c17Input{its, perm, []int{a, b}}, cn)
-					s.Transitions++
-				}
-			}
-		})
-	})
+	// the pairs first (quick tier): should a deadline cut the run short, it cuts the singles
 	if k < 2 {
 		// quick tier: additionally every pair of extension items (the order-sensitive ones)
 		var exts []int
@@ -485,5 +458,48 @@ func runC17(c *explore.Ctx) {
 			}
 		}
 	}
+	explore.Subsets(len(gen.KitMenu), k, func(items []int) {
+		idx++
+		if idx%c.NShards != c.Shard || !s.Exhaustive {
+			return
+		}
+		if c.Expired() {
+			s.Cap("deadline")
+			return
+		}
+		its := append([]int{}, items...)
+		cn := c17Canonical(its)
+		n := 3 + len(its)
+		s.States++
+		explore.Perms(n, func(p []int) {
+			perm := append([]int{}, p...)
+			// cuts: none, one, two
+			c17Case(c, s, c17Input{its, perm, nil}, cn)
+			s.Transitions++
+			for a := 1; a < n; a++ {
+				c17Case(c, s, c17Input{its, perm, []int{a}}, cn)
+				s.Transitions++
+				for b := a + 1; b < n; b++ {
+					c17Case(c, s, c17Input{its, perm, []int{a, b}}, cn)
+					s.Transitions++
+				}
+			}
+		})
+	})
 	s.WallS = time.Since(t0).Seconds()
+}
+
+// c17Monotone: the permutation is the identity or its reversal (the source-order swap with a
+// built-in flag is tried on those layouts: every cut of the canonical order and of its mirror).
+func c17Monotone(p []int) bool {
+	asc, desc := true, true
+	for i := 1; i < len(p); i++ {
+		if p[i] < p[i-1] {
+			asc = false
+		}
+		if p[i] > p[i-1] {
+			desc = false
+		}
+	}
+	return asc || desc
 }
